@@ -255,7 +255,8 @@ theorem mapOpt_stable (cfg : Cfg) (f : Nat) (ih : StableAt cfg f) :
 /-- own-level stability of questions: the part of the tree theorem that is about `Question.__init__`'s
     type-table merge (see `question_stable`) -/
 def QStable (cfg : Cfg) : Prop :=
-  ∀ t kvs e, questionFromJson cfg t kvs = some e → ∀ x, (∀ k ∈ x, k = k!"parent") →
+  ∀ t kvs e, lookup k!"type" kvs = some (.str t) → questionFromJson cfg t kvs = some e →
+    ∀ x, (∀ k ∈ x, k = k!"parent") →
     ∃ kvs' e', toJson e x = .obj kvs' ∧ lookup k!"type" kvs' = some (.str t) ∧
       questionFromJson cfg t kvs' = some e' ∧ ∀ y, (∀ k ∈ y, k = k!"parent") → toJson e' y = toJson e y
 
@@ -621,7 +622,7 @@ theorem stable_all (cfg : Cfg) (ok : SecOk cfg) (hq : QStable cfg) : ∀ f, Stab
                     · exact Or.inr h1
                   exact group_reload cfg ok f t ht kvs kids kids' hty hname hnone hk1 hk2 x hx
         · next hsec =>
-          obtain ⟨kvs', e', hd, hty', hq', heq⟩ := hq t kvs e h x hx
+          obtain ⟨kvs', e', hd, hty', hq', heq⟩ := hq t kvs e hty h x hx
           refine ⟨e', ?_, heq⟩
           rw [hd]
           simp only [fromJson, hty', hsec, if_false, hq']
